@@ -107,7 +107,7 @@ def handleFmt (cfgS inpS kindsS linesS postS changedS alnumS cursorsS : String) 
       let (marks, lines', ft1) := preWrap O raw
       let out := formatTokens cfg O raw
       let ft2 := O.wrap cfg lines' ft1
-      let wc := wrapFrameB ft1 ft2 && wrapContentB cfg ft1 ft2
+      let wc := wrapFrameB ft1 ft2 && wrapContentB cfg ft1 ft2 && wrapIgnoredB ft1 ft2
       let ndOk := contentsNdB raw
       let marksS := showList ((marks.zipIdx.filter (·.1)).map fun (_, i) => toString i)
       let pre := showList (ft1.map fun t => showFmt t.fmt)
